@@ -88,11 +88,34 @@ impl Streams {
             max_open_remote_bidirectional_streams: VarInt::from_u32(100),
             max_open_remote_unidirectional_streams: VarInt::from_u32(100),
         };
-        let peer = InitialFlowControlLimits {
-            stream_limits: peer_stream_limits,
-            max_data: VarInt::new(peer_max_data).unwrap(),
-            max_open_remote_bidirectional_streams: VarInt::new(peer_bidi).unwrap(),
-            max_open_remote_unidirectional_streams: VarInt::new(peer_uni).unwrap(),
+        // the peer's limits go through the real `TransportParameters::flow_control_limits()` of the
+        // parameter set the peer would have sent (a server's for a local client and vice versa)
+        let peer = {
+            use core::convert::TryInto;
+            use s2n_quic_core::transport::parameters::{
+                ClientTransportParameters, ServerTransportParameters,
+            };
+            macro_rules! limits_of {
+                ($ty:ty) => {{
+                    let mut params = <$ty>::default();
+                    params.initial_max_data = VarInt::new(peer_max_data).unwrap().try_into().unwrap();
+                    params.initial_max_stream_data_bidi_local =
+                        peer_stream_limits.max_data_bidi_local.try_into().unwrap();
+                    params.initial_max_stream_data_bidi_remote =
+                        peer_stream_limits.max_data_bidi_remote.try_into().unwrap();
+                    params.initial_max_stream_data_uni =
+                        peer_stream_limits.max_data_uni.try_into().unwrap();
+                    params.initial_max_streams_bidi =
+                        VarInt::new(peer_bidi).unwrap().try_into().unwrap();
+                    params.initial_max_streams_uni = VarInt::new(peer_uni).unwrap().try_into().unwrap();
+                    params.flow_control_limits()
+                }};
+            }
+            if server {
+                limits_of!(ClientTransportParameters)
+            } else {
+                limits_of!(ServerTransportParameters)
+            }
         };
         let limits = connection::Limits::default()
             .with_max_open_local_bidirectional_streams(local_bidi)
